@@ -1014,6 +1014,8 @@ void flexinit (int argc, char **argv)
 				    continue;
 			    if (*def == '\0')
 				    def = "1";
+			    else
+				    *def++ = '\0';
 
 			    snprintf(buf2, sizeof(buf2), "M4_HOOK_CONST_DEFINE_UNKNOWN(%s, %s)", arg, def);
 			    buf_strappend (&userdef_buf, buf2);
